@@ -57,10 +57,34 @@ def pipeline(spec, cfg, solve=True):
         real_opt.minimize = real_min
 
 
+def table_spacing(fe, Tn):
+    """Smallest gap between adjacent table abscissae relative to the median gap, and
+    whether it touches the starting temperature."""
+    Ts = np.asarray(fe._interpolationPoints, dtype=float)
+    d = np.diff(Ts)
+    j = int(np.argmin(d))
+    return {"min_over_median": float(d[j] / np.median(d)),
+            "at_start": bool(abs(Ts[j] - Tn) < 1e-12 * Tn or abs(Ts[j + 1] - Tn) < 1e-12 * Tn)}
+
+
 def _pipeline(spec, cfg, solve, out, stats):
-    b = MG.build(spec, cfg)
+    b = MG.build(spec, cfg, setup=False)
     out["minimiser"] = stats
     m, pot, Tn = b["manager"], b["pot"], b["Tn"]
+    out["_pot"] = pot
+    out["Tn"] = Tn
+    try:
+        m.setupThermodynamicsHydrodynamics(b["phaseInfo"], b["scales"])
+    except Exception as exc:
+        out["raised"] = repr(exc)[:300]
+        th = getattr(m, "thermodynamics", None)
+        if th is not None and th.freeEnergyHigh.hasInterpolation() and \
+                th.freeEnergyLow.hasInterpolation():
+            out["spacing"] = {"H": table_spacing(th.freeEnergyHigh, Tn),
+                              "L": table_spacing(th.freeEnergyLow, Tn)}
+        return out
+    out["spacing"] = {"H": table_spacing(m.thermodynamics.freeEnergyHigh, Tn),
+                      "L": table_spacing(m.thermodynamics.freeEnergyLow, Tn)}
     ok, why = p_trace(m, pot)
     out["p_trace"] = ok
     out["p_trace_why"] = why
